@@ -530,9 +530,28 @@ func init() {
 				check.Job{Kind: "c08", Name: "IN:bursts@" + pt, Params: p3, CrashIsViolation: true},
 				check.Job{Kind: "c08", Name: "S3:idle@" + pt, Params: p4, CrashIsViolation: true})
 		}
+		// client behaviour that needs a schedule or a history to bite: joins, departures and
+		// switches racing with other members' requests (production decoration; deadlock, panic
+		// and teardown oracles), and session switches / closes with updates pending
+		for _, p := range pairList {
+			sel := false
+			for _, r := range p {
+				if r.Kind == "join" || r.Kind == "leave" || r.Kind == "switch" {
+					sel = true
+				}
+			}
+			if sel && len(p) == 2 {
+				jobs = append(jobs, s2jobOpt(pairName(p...), 1, 300, true, false))
+			}
+		}
+		d := 6
+		if tier == "thorough" {
+			d = 7
+		}
+		jobs = append(jobs, s1job("entities", d, []string{"C08"}, 8, 300), s1job("pose-churn", d, []string{"C08"}, 4, 300))
 		return jobs
 	}, check.PropInfo{
-		Rule:        "per life-cycle point (before join, joined alone, joined with a peer, mid measurement), in the production decoration (logs + metrics, all modules): (a) every message type (core, vikja, odal, dagaz) with each optional field absent or at a boundary (nil sub-messages, NaN/Inf/huge floats, MaxUint32, 64 KiB strings), types the server does not implement; (b) byte level: every prefix of a frame then close, single-byte substitutions {00,7f,80,ff} in header and first 16 payload bytes, unmasked / text / ping / pong / close / continuation / reserved opcodes, fragmentation, oversize length, garbage; (c) bursts of 1..12 failing requests written before the main loop runs, with and without an abrupt close; (d) idle: silent for the timeout => disconnected, sending within it => not (virtual clock). Oracle: no goroutine panics (a panic recovered by net/http counts), no deadlock, the offending connection either stays served or is ended through the normal path exactly once (handler returned, goroutines gone, one HandleDisconnect, participant removed, peer told once), connected-clients gauge consistent, the witness in another session undisturbed, worker process alive.",
+		Rule:        "per life-cycle point (before join, joined alone, joined with a peer, mid measurement), in the production decoration (logs + metrics, all modules): (a) every message type (core, vikja, odal, dagaz) with each optional field absent or at a boundary (nil sub-messages, NaN/Inf/huge floats, MaxUint32, 64 KiB strings), types the server does not implement; (b) byte level: every prefix of a frame then close, single-byte substitutions {00,7f,80,ff} in header and first 16 payload bytes, unmasked / text / ping / pong / close / continuation / reserved opcodes, fragmentation, oversize length, garbage; (c) bursts of 1..12 failing requests written before the main loop runs, with and without an abrupt close; (d) idle: silent for the timeout => disconnected, sending within it => not (virtual clock); (e) S2: every pair block with a join, a departure or a switch (production decoration, 1 preemption) and S1 families `entities`, `pose-churn` for deadlocks, goroutine panics and teardown leaks that need an interleaving or a history. Oracle: no goroutine panics (a panic recovered by net/http counts), no deadlock, the offending connection either stays served or is ended through the normal path exactly once (handler returned, goroutines gone, one HandleDisconnect, participant removed, peer told once), connected-clients gauge consistent, the witness in another session undisturbed, worker process alive.",
 		Assumptions: []string{"in-memory pipe instead of TCP", "one offending input per execution; thread interleavings of the teardown are covered for the departure paths by the S2 blocks of C06/C07"},
 	})
 }
